@@ -653,7 +653,7 @@ MUTANTS = [
     dict(name='synth shift mask dropped', file=SYNTH, find=r'#define BINARY_OP_EXPR_SHIFT\(ty, op\) BINARY_OP_EXPR_EX\(ty, op, " & RAM_BIT_SHIFT_MASK"\)', repl='#define BINARY_OP_EXPR_SHIFT(ty, op) BINARY_OP_EXPR_EX(ty, op, "")', expect=r'functors\.synth\.U?BSHIFT'),
     dict(name='interp BSHIFT_R logical instead of arithmetic', file=ENGINE, find=r'BINARY_OP_INTEGRAL_SHIFT\(BSHIFT_R         , >>, RamSigned  , RamUnsigned\)', repl='BINARY_OP_INTEGRAL_SHIFT(BSHIFT_R         , >>, RamUnsigned, RamUnsigned)', expect=r'functors\.interp\.BSHIFT_R '),
     dict(name='interp std::min <-> std::max', file=ENGINE, find=r'MINMAX_NUMERIC\(MAX, std::max\)\s*MINMAX_NUMERIC\(MIN, std::min\)', repl='MINMAX_NUMERIC(MAX, std::min)\n                MINMAX_NUMERIC(MIN, std::max)', expect=r'functors\.interp\.U?F?M(AX|IN)'),
-    dict(name='synth UDIV emitted signed', file=SYNTH, find=r'#define BINARY_OP_INTEGRAL\(opcode, op\)\s*\\\s*case FunctorOp::   opcode: BINARY_OP_EXPR\(RamSigned  , op\) \\\s*case FunctorOp::U##opcode: BINARY_OP_EXPR\(RamUnsigned, op\)', repl='#define BINARY_OP_INTEGRAL(opcode, op)                         \\\n    case FunctorOp::   opcode: BINARY_OP_EXPR(RamSigned  , op) \\\n    case FunctorOp::U##opcode: BINARY_OP_EXPR(RamSigned, op)', expect=r'functors\.synth\.U(DIV|MOD)'),
+    dict(name='synth UDIV emitted signed', file=SYNTH, find=r'#define BINARY_OP_INTEGRAL\(opcode, op\)\s*\\\s*case FunctorOp::   opcode: BINARY_OP_EXPR\(RamSigned  , op\) \\\s*case FunctorOp::U##opcode: BINARY_OP_EXPR\(RamUnsigned, op\)', repl='#define BINARY_OP_INTEGRAL(opcode, op)                         \\\n    case FunctorOp::   opcode: BINARY_OP_EXPR(RamSigned  , op) \\\n    case FunctorOp::U##opcode: BINARY_OP_EXPR(RamSigned, op)', expect=r'functors\.synth\.U(DIV|MOD|MUL|ADD|SUB|BAND|BOR|BXOR)'),
     dict(name='interp ULT compares signed', file=ENGINE, find=r'case BinaryConstraintOp::U##opCode: COMPARE_NUMERIC\(RamUnsigned, op\); \\', repl='case BinaryConstraintOp::U##opCode: COMPARE_NUMERIC(RamSigned, op); \\\\', expect=r'functors\.interpc\.U(LT|LE|GT|GE)'),
     dict(name='interp LXOR as bitwise xor', file=ENGINE, find=r'BINARY_OP_LOGICAL\(LXOR, \+ souffle::evaluator::lxor_infix\(\) \+\)', repl='BINARY_OP_LOGICAL(LXOR, ^)', expect=r'functors\.interp\.U?LXOR'),
     dict(name='interp F2U via signed', file=ENGINE, find=r'UNARY_OP\(F2U, RamFloat   , static_cast<RamUnsigned>\)', repl='UNARY_OP(F2U, RamFloat   , static_cast<RamSigned>)', expect=r'functors\.interp\.F2U'),
